@@ -63,12 +63,14 @@ class Net:
         self.sent = []           # (tick, dest sockaddr tuple, bytes)
         self.on_send = None      # optional callback(tick, dest, data)
         self.send_errors = {}    # dest sockaddr -> OSError to raise on sendmsg
+        self.failed_sends = []   # (tick, dest) of sendmsg calls that raised
         self.mint = None
         self.sock = FakeSocket(self)
 
     def _sent(self, address, data, ancdata):
-        if address in self.send_errors:
-            raise self.send_errors[address]
+        if tuple(address) in self.send_errors:
+            self.failed_sends.append((self.loop.now_ticks(), tuple(address)))
+            raise self.send_errors[tuple(address)]
         rec = (self.loop.now_ticks(), tuple(address), data)
         self.sent.append(rec)
         if self.on_send:
